@@ -5,6 +5,7 @@ import (
 	"fmt"
 	"os"
 	"strings"
+	"time"
 
 	"github.com/Trendyol/go-dcp/config"
 	"github.com/couchbase/gocbcore/v10"
@@ -65,6 +66,7 @@ func init() {
 			}
 			out = append(out, Instance{Scenario: "c15_start", Params: mustJSON(StartParams{Reset: "earliest", Mode: "infinite", PartialFile: true}), Bound: 0})
 			out = append(out, Instance{Scenario: "c12_duringopen", Params: mustJSON(struct{}{}), Bound: b, Shards: 4, Note: "a started session never silently covers only part of the assignment: a stream ending while Open() still waits for another vBucket is re-opened or counted"})
+			out = append(out, Instance{Scenario: "c15_reopen_fault", Params: mustJSON(struct{}{}), Bound: 0, Note: "load failures at the start-up that ends a rebalance"})
 			out = append(out, Instance{Scenario: "c15_slowfail", Params: mustJSON(struct{}{}), Bound: b, Shards: 4, Note: "the failing stream request is the last one to complete: every schedule within the bound"})
 			out = append(out, Instance{Scenario: "c12_reopenfail", Params: mustJSON(ReopenFailParams{Failures: 5}), Bound: 0, Note: "a vBucket that cannot be re-opened after the bounded retries terminates the client"})
 			out = append(out, Instance{Scenario: "c12_reopenfail", Params: mustJSON(ReopenFailParams{Failures: 4}), Bound: 0, Note: "four failed attempts and a successful fifth: streaming continues"})
@@ -312,6 +314,56 @@ func init() {
 				return nil // the Failf above carries the message
 			}
 			return []string{"start-up neither terminated nor started: status " + r.Status.String() + "; blocked: " + strings.Join(r.Blocked, " | ")}
+		}}
+	}
+}
+
+// c15_reopen_fault: the start-up that ends a real Rebalance() (second session of the process) meets a
+// failure while loading checkpoints / vBucket sequence numbers: the client terminates exactly as on the
+// first start-up - it does not go on running with no (or only part of its) streams.
+func init() {
+	scenarios["c15_reopen_fault"] = func(raw json.RawMessage) *vrt.Scenario {
+		return &vrt.Scenario{Name: "c15_reopen_fault", FreeChoices: true, NoTimerAlt: true, MaxSteps: 400000, Main: func() {
+			resetGlobals()
+			o := EnvOpts{Vbs: 2, Nodes: 2, CheckpointType: "manual", WrapMeta: true, RebalanceDelay: time.Second}
+			c := NewCluster(&o)
+			c.Append(0, marker(1, 1), symbolPacket("M", 1))
+			e := NewEnv(c, o)
+			e.Cons.AutoAck = true
+			e.Stream.Open()
+			c.WaitIdle()
+			what := vrt.Choose(3, true, "fault")
+			kind := []string{"lookupin", "vbseqnos", "failoverlog"}[what]
+			how := vrt.Choose(2, true, "answer")
+			armed := false
+			c.Fault = func(r *gocbcore.SimRequest) gocbcore.SimAnswer {
+				if armed && r.Kind == kind {
+					armed = false
+					if how == 0 {
+						return gocbcore.SimAnswer{Kind: "err", Err: &gocbcore.KeyValueError{InnerError: gocbcore.ErrTemporaryFailure, StatusCode: memd.StatusTmpFail}}
+					}
+					return gocbcore.SimAnswer{Kind: "drop"}
+				}
+				return gocbcore.SimAnswer{}
+			}
+			desc := fmt.Sprintf("re-open after a rebalance: a %s request is %s", kind, []string{"rejected", "never answered"}[how])
+			vrt.SetOutcome(desc)
+			armed = true
+			e.Stream.Rebalance()
+			vrt.Sleep(3 * time.Minute)
+			vrt.Quiesce()
+			if kind == "failoverlog" && !armed {
+				// (only asked on the rollback path: not reached here)
+			}
+			if armed {
+				return // the request kind does not occur in a re-open: nothing was injected
+			}
+			vrt.Failf("%s, yet the client keeps running (stream open=%v, streams on the server: vb0=%v vb1=%v)", desc, e.Stream.IsOpen(), c.StreamOpen(0), c.StreamOpen(1))
+		}, Classify: func(r *vrt.Result) []string {
+			if r.Status == vrt.StatusCrash || r.Status == vrt.StatusOK {
+				return nil
+			}
+			return []string{"neither terminated nor running: status " + r.Status.String() + "; blocked: " + strings.Join(r.Blocked, " | ")}
 		}}
 	}
 }
